@@ -432,7 +432,7 @@ func TestC28_NoRequestCrashesTheNode(t *testing.T) {
 	if err != nil {
 		t.Skipf("HARNESS-SETUP-FAILED node template: %v", err) // a harness problem is never a verdict about the property
 	}
-	hx.Check(t, "C28", 60, 6000, func(t *rapid.T) {
+	hx.Check(t, "C28", 600, 20000, func(t *rapid.T) {
 		n, err := startNode(tm)
 		if err != nil {
 			t.Fatalf("node start: %v", err)
@@ -443,11 +443,36 @@ func TestC28_NoRequestCrashesTheNode(t *testing.T) {
 				_ = n.stop()
 			}
 		}()
+		var log []string
+		blockDone := false
+		// starting state of the node: as copied, or after the block that turns a pooled transaction into a double spend,
+		// optionally followed by the maintenance passes that evict it
+		switch rapid.IntRange(0, 3).Draw(t, "scenario") {
+		case 1, 2, 3:
+			sc := rapid.IntRange(1, 3).Draw(t, "passes")
+			if err := n.v.ExecuteSignedBlock(tm.nextBlock); err != nil {
+				t.Fatalf("HARNESS: prepared block rejected: %v", err)
+			}
+			blockDone = true
+			log = append(log, "EVENT block accepted (confirms a competitor of a pooled transaction)")
+			r.Count("event_block")
+			if sc >= 3 {
+				if _, err := n.v.RefreshUnconfirmed(); err != nil {
+					t.Fatalf("RefreshUnconfirmed: %v", err)
+				}
+				log = append(log, "EVENT refresh pass")
+			}
+			if sc >= 2 {
+				if _, err := n.v.RemoveInvalidUnconfirmed(); err != nil {
+					t.Fatalf("RemoveInvalidUnconfirmed: %v", err)
+				}
+				log = append(log, "EVENT invalid-removal pass")
+				r.Count("event_remove_invalid_after_block")
+			}
+		}
 		c := &c28Ctx{t: t, n: n, tm: tm}
 		c.collectLive()
 		nreq := rapid.IntRange(8, 40).Draw(t, "nreq")
-		var log []string
-		blockDone := false
 		for k := 0; k < nreq; k++ {
 			// node-side events between requests, as the daemon produces them: a block arrives that turns a pooled
 			// transaction into a double spend, the periodic refresh and invalid-removal passes run
